@@ -99,12 +99,6 @@ Section Targets.
 End Targets.
 
 (* ---- IEEE decision layer: per row, mask = (accept_logp >= ln u); accept_logp = h_current - h_proposed ---- *)
-Definition hmc_decide32 (h_cur h_prop lnu : Z) : list Z :=
-  let d := b32_minus mode_NE (b32_of_bits h_cur) (b32_of_bits h_prop) in
-  [bits_of_b32 d; b2z (fge d (b32_of_bits lnu))].
-Definition hmc_decide64 (h_cur h_prop lnu : Z) : list Z :=
-  let d := b64_minus mode_NE (b64_of_bits h_cur) (b64_of_bits h_prop) in
-  [bits_of_b64 d; b2z (fge d (b64_of_bits lnu))].
 (* generic-format version used by the theorems *)
 Section Decide.
   Variables prec emax : Z.
@@ -118,9 +112,23 @@ End Decide.
 Arguments hmc_accept {prec emax Hprec Hmax}.
 Arguments hmc_row_float {prec emax Hprec Hmax} nanf {A}.
 
+(* instances on bit patterns: [bits of accept_logp; which of the rows 0 (old) / 1 (proposal) is kept] *)
+Definition hmc_decide32 (h_cur h_prop lnu : Z) : list Z :=
+  let a := b32_of_bits h_cur in let b := b32_of_bits h_prop in
+  [bits_of_b32 (fminus binop_nan_pl32 a b); hmc_row_float binop_nan_pl32 0%Z 1%Z a b (b32_of_bits lnu)].
+Definition hmc_decide64 (h_cur h_prop lnu : Z) : list Z :=
+  let a := b64_of_bits h_cur in let b := b64_of_bits h_prop in
+  [bits_of_b64 (fminus binop_nan_pl64 a b); hmc_row_float binop_nan_pl64 0%Z 1%Z a b (b64_of_bits lnu)].
+
 (* ---- evaluation entry points (Q): L leapfrog steps and the energy difference from (x,p) ---- *)
 Definition hmc_eval_q (logp : list Q -> Q) (grad : list Q -> list Q) (eps : Q) (L : nat) (x p : list Q) : list Z :=
-  let z' := leapfrog numQ grad eps L (x, p) in
+  let z' := leapfrog_impl numQ grad eps L x p in          (* the loop as the code writes it *)
+  let zs := leapfrog numQ grad eps L (x, p) in            (* the textbook form the theorems speak about *)
   qouts (fst z') ++ qouts (snd z')
   ++ qout (sub numQ (hamiltonian numQ logp (x, p)) (hamiltonian numQ logp z'))
-  ++ qout (logp x) ++ qout (logp (fst z')).
+  ++ qout (logp x) ++ qout (logp (fst z'))
+  ++ [if list_eq_dec Z.eq_dec (qouts (fst z') ++ qouts (snd z')) (qouts (fst zs) ++ qouts (snd zs)) then 1%Z else 0%Z].
+(* a whole batch step in exact arithmetic (rows, their momenta, their ln u): new positions *)
+Definition hmc_step_eval_q (logp : list Q -> Q) (grad : list Q -> list Q) (eps : Q) (L : nat)
+    (xs ps : list (list Q)) (lnus : list Q) : list Z :=
+  concat (map qouts (hmc_step numQ logp grad eps L xs ps lnus)).
